@@ -107,7 +107,8 @@ def run(F, R, tier):
     for p, g in sorted(F.fns.items()):
         if not p.startswith(PP) or H.body_of(g) is None or "::set_" not in p:
             continue
-        b = H.body_of(g)
+        # normal form: a shared `set_address_property(obj, Addr::from_str, |a| store, msg)` helper applied to its arguments
+        b = H.normal(F, H.body_of(g))
         par = {}
         stack = [(b, None)]
         while stack:
